@@ -346,6 +346,29 @@ def h_outgoing_sync_reply(ctx, kind):
     return c08.h_sync_reply(ctx, kind, "plain")
 
 
+def h_participants_answer(ctx, action):
+    """a group participants request (add / remove) is sent, then the server's documented answer with that id arrives: what the application
+    gets carries the answer's fields (its serialisation is the stanza that arrived)"""
+    from yowsup.layers.protocol_groups.protocolentities import AddParticipantsIqProtocolEntity, RemoveParticipantsIqProtocolEntity
+    st, bottom, app, mgr = _stack("all", True)
+    N = SC.N()
+    group = "4915900000001-1400000000@g.us"
+    members = ["4915900000002@s.whatsapp.net", "4915900000003@s.whatsapp.net"][:1 + (1 if ctx.flag("two_members") else 0)]
+    req = (AddParticipantsIqProtocolEntity if action == "add" else RemoveParticipantsIqProtocolEntity)(group, members)
+    app.toLower(req)
+    obs = [("the request leaves as exactly one stanza (got %d)" % len(bottom.down), len(bottom.down) == 1)]
+    if len(bottom.down) != 1:
+        return obs
+    rid = bottom.down[0]["id"]
+    answer = N("iq", {"type": "result", "from": group, "id": rid}, [N(action, {"type": "success", "participant": m}) for m in members])
+    bottom.inject(answer)
+    obs.append(("the answer surfaces as exactly one entity (got %d)" % len(app.up), len(app.up) == 1))
+    if len(app.up) == 1 and app.up[0] is not None:
+        out = app.up[0].toProtocolTreeNode()
+        obs.append(("the entity carries the answer's fields (its serialisation is the stanza that arrived; got %s)" % type(app.up[0]).__name__, SC.strict_eq(out, answer)))
+    return obs
+
+
 def finding_key(case, label, values, where):
     if case.startswith("out[UnregisterIq,") and label.startswith("exactly-one-stanza (got 0)"):
         return "C06|outgoing UnregisterIqProtocolEntity is dropped by every layer"
@@ -371,6 +394,8 @@ def cases(tier):
         cs.append(dict(name="out-after-failed-send[%s]" % n.split(":")[-1], fn=h_outgoing_after_failure, args=(n, "all", True), max_paths=2000))
     for k in ("lastseen", "group-info", "picture-get", "media-upload", "groups-list"):
         cs.append(dict(name="out-answered-during-send[%s]" % k, fn=h_outgoing_sync_reply, args=(k,), max_paths=2000))
+    for action in ("add", "remove"):
+        cs.append(dict(name="out-then-answer[group participants %s]" % action, fn=h_participants_answer, args=(action,)))
     cs.append(dict(name="out[two requests of different kinds outstanding, 2 replies]", fn=h_two_requests, max_paths=20000, timeout_s=300))
     for count in (1, 2, 3):
         cs.append(dict(name="in-encrypted[%d messages parked until the sender's keys arrive]" % count, fn=h_incoming_parked, args=(count,), max_paths=2000))
